@@ -331,6 +331,25 @@ def valid_five_six(case):
             and all(isinstance(x, int) and x >= 0 for x in v))
 
 
+@st.composite
+def few_values_cases(draw):
+    """snp / rnp / ckk / complete greedy on 8-10 items drawn from 2-4 distinct values, 3-4 bins, as a plain list (the items ARE the values):
+    candidate sub-collections that differ only in how many copies of a value they hold."""
+    seed = draw(st.integers(0, 2 ** 48))
+    alg = ["snp", "snp", "rnp", "rnp", "ckk", "cg"][seed % 6]
+    k = [3, 3, 4][(seed >> 3) % 3]
+    n = 8 + (seed >> 5) % 3 - (1 if alg == "cg" and k == 4 else 0)
+    pool = S.splitmix(seed >> 8, 2 + (seed >> 7) % 3, 1, [15, 15, 40][(seed >> 10) % 3])
+    values = [pool[i] for i in S.splitmix(seed >> 12, n, 0, len(pool) - 1)]
+    return {"alg": alg, "values": values, "numbins": k, "pres": ["list", "list", "array"][(seed >> 20) % 3], "nseed": 0, "profile": "few-distinct-values"}
+
+
+def valid_few_values(case):
+    v = case.get("values")
+    return (case.get("alg") in ("snp", "rnp", "ckk", "cg") and case.get("numbins") in (2, 3, 4) and isinstance(v, list) and 1 <= len(v) <= 10
+            and all(isinstance(x, int) and x >= 0 for x in v))
+
+
 def valid_rnp_five(case):
     v = case.get("values")
     return (case.get("alg") == "rnp" and case.get("numbins") in (3, 4, 5) and isinstance(v, list) and 1 <= len(v) <= 10
@@ -381,6 +400,9 @@ def legs(tier):
             "hypothesis: rnp with exactly 5 bins on 9-10 evenly spread items (values up to 20 ... 1000): the one shape in which its odd and "
             "its even step are nested; same oracle and rule", strategy=rnp_five_cases(), n_quick=4000, n_thorough=60000,
             valid=valid_rnp_five, floor=0.03, shards=16),
+        Leg("few-distinct-values", evaluate,
+            "hypothesis: snp / rnp / ckk / complete greedy on 8-10 items drawn from 2-4 distinct values, 3-4 bins, as a list or an array; "
+            "same oracle and rule", strategy=few_values_cases(), n_quick=5000, n_thorough=60000, valid=valid_few_values, floor=0.02, shards=16),
         Leg("five-six-bins", evaluate,
             "hypothesis: snp / ckk / complete greedy (three objectives) with 5 bins x 9-10 items and 6 bins x 8-9 items, values up to 20 ... 1000; "
             "same oracle and rule", strategy=five_six_bins_cases(), n_quick=480, n_thorough=40000, valid=valid_five_six, floor=0.03, shards=16),
